@@ -293,6 +293,20 @@ func (g *gen) keyAny() key {
 
 func (g *gen) declare(s int) *op {
 	o := &op{kind: 'D', s: s}
+	// every spelling StructBuilder accepts or rejects: list (also empty), bare (struct S), quoted name, malformed
+	switch c := g.r.Intn(20); {
+	case c < 3:
+		o.shape = 'b'
+		g.tg["decl:bare"] = true
+		return o
+	case c < 5:
+		o.shape = 'q'
+		g.tg["decl:quoted"] = true
+	case c < 6:
+		o.shape = "xne"[g.r.Intn(3)]
+		g.tg["decl:malformed"] = true
+		return o
+	}
 	n := g.r.Intn(g.nf + 1)
 	used := map[int]bool{}
 	for i := 0; i < n; i++ {
@@ -582,6 +596,13 @@ func fixedScenarios() []string {
 		"D 0 1 f0 b0 ; C 0 0 1 f0 I1 ; C 1 0 1 f0 I2 ; R 0 @1 ; R 0 I3 ; D 1 1 f0 b0 ; C 2 1 1 f0 I1 ; R 0 @2",
 		// self reference: the direct struct-typed field is the place-holder type, the pointer works by name
 		"D 0 2 f0 s0 f1 P s0 ; C 0 0 0 ; W h 0 f0 @0 ; W h 0 f1 &0 ; W h 0 f0 N",
+		// redeclaration through every spelling, then instances made afterwards must follow the NEW definition
+		"D 0 1 f0 b0 ; C 0 0 1 f0 I1 ; Db 0 ; C 1 0 1 f0 I1 ; C 2 0 0 ; W h 2 f0 I1 ; J 0 3 0 1 f0 I1 ; M 1 4 0 1 f0 I1 ; W h 0 f0 I2",
+		"D 0 1 f0 b0 ; C 0 0 1 f0 I1 ; D 0 0 ; C 1 0 1 f0 I1 ; C 2 0 0 ; W d 2 f0 I1 ; J 1 3 0 1 f0 I1 ; W h 0 f0 I2",
+		"D 0 1 f0 b0 ; C 0 0 1 f0 I1 ; Dq 0 1 f1 b2 ; C 1 0 1 f0 I1 ; C 2 0 1 f1 S1 ; W x 2 f0 I1 ; J 0 3 0 1 f0 I1 ; W h 0 f0 I2",
+		"D 0 1 f0 b0 ; C 0 0 1 f0 I1 ; Dx 0 ; C 1 0 1 f0 I1 ; C 2 0 0 ; W h 2 f0 I1 ; W h 0 f0 I2",
+		"D 0 1 f0 b0 ; Dn 0 ; C 1 0 1 f0 I1 ; J 0 3 0 1 f0 I1 ; D 0 1 f0 b0 ; De 0 ; C 2 0 1 f0 I1",
+		"Db 0 ; C 0 0 0 ; C 1 0 1 f0 I1 ; D 0 1 f0 b0 ; C 2 0 1 f0 I1 ; Db 0 ; M 0 3 0 1 f0 I1",
 		// index-style writes (the key arrives as a one-element array): right, wrong type, undeclared, through every spelling
 		"D 0 2 f0 b0 f1 L b2 ; C 0 0 1 f0 I1 ; W j 0 f0 I2 ; W j 0 f0 S1 ; W j 0 f3 I1 ; W j 0 f1 A1 I1 ; W j 0 f1 A1 S1",
 		"D 0 2 f0 b0 f1 L b2 ; C 0 0 1 f0 I1 ; W k 0 f0 I2 ; W k 0 f0 S1 ; W k 0 f3 I1 ; W k 0 f1 A1 I1 ; W k 0 f1 A0",
